@@ -4,6 +4,7 @@
 
 mod alloc_track;
 mod apidiff;
+mod bigscen;
 mod ops;
 mod panicapi;
 mod weakraw;
@@ -229,6 +230,10 @@ fn main() {
         alloc_track::TRACK.store(false, Relaxed);
         std::process::exit(weakraw::main());
     }
+    if mode == "bigscen" {
+        alloc_track::TRACK.store(false, Relaxed);
+        std::process::exit(bigscen::main(args.get(2).map(String::as_str)));
+    }
     if mode == "panicapi" {
         alloc_track::TRACK.store(false, Relaxed);
         std::process::exit(panicapi::main());
@@ -257,7 +262,7 @@ fn main() {
             }
         }
     }
-    if mode != "cactus" && mode != "std" && mode != "bigring" && mode != "apidiff" && mode != "panicapi" && mode != "weakraw" {
+    if mode != "cactus" && mode != "std" && mode != "bigring" && mode != "apidiff" && mode != "panicapi" && mode != "weakraw" && mode != "bigscen" {
         eprintln!("unknown mode {}", mode);
         std::process::exit(2);
     }
